@@ -17,6 +17,11 @@ def run_disasm(rep, prop, seed, n, mask_panic_only=False):
         if mask_panic_only and code not in (4, 5):
             continue
         e = events[idx - 1]
+        if e["ev"] == "hdrpair":
+            rep.violation("disasm:header-pair:tool%d" % e["g1"], {"component": "disassembler", "input": {"header_pair": [e["g1"], e["g2"]]},
+                          "observed": {"tok1": e["tok1"], "tok2": e["tok2"]}, "expected": "DisasmTrace!PairCode: a registered tool and a tool id outside the pinned list never share a header comment", "spec_ref": "DisasmTrace!PairCode"})
+            counted += 1
+            continue
         if code == 4:
             if mask_panic_only:
                 rep.violation("load:panic:%s" % e["panic"][1][:50], {"component": "loader", "input": {"words": e["words"]},
@@ -72,8 +77,8 @@ def run_check(tier, seed, replay=None):
         for l in f:
             e = json.loads(l)
             tags[e["tag"]] = tags.get(e["tag"], 0) + 1
-            lines += len(e["lines"])
-            if e["tag"] == "extinst-strings":
+            lines += len(e.get("lines", []))
+            if e["tag"] == "extinst-strings" and "lines" in e:
                 sample = {"lines": e["lines"][:12]}
     for t in ("random", "sweep", "constants", "extinst-strings"):
         if tags.get(t, 0) == 0:
